@@ -21,7 +21,8 @@ PROP = dict(
                dict(fn=MS + "create_bucket", rt_skip=True),
                dict(fn=MS + "delete_bucket", rt_skip=True),
                dict(fn=MS + "get_metadata", rt_skip=True),
-               dict(fn=MS + "update_bucket", rt_skip=True)],
+               dict(fn=MS + "update_bucket", rt_skip=True),
+               dict(fn=MS + "buckets", rt_skip=True)],
     timeout_s=20,
     extra=[lambda run: run.storage_histories("C05")],
     technique="run-time refinement check of the real back ends against a reference list over random histories (bounded); "
@@ -48,4 +49,6 @@ MUTANTS = [
     (FM, '            if data is not None:\n                self._metadata[bucket_id]["data"] = data', '            if data:\n                self._metadata[bucket_id]["data"] = data', True),   # reverts 15a9dd8: an empty data dict is ignored
     (FM, '            if hostname:\n                self._metadata[bucket_id]["hostname"] = hostname', '            if hostname:\n                self._metadata[bucket_id]["hostname"] = client', True),   # memory: hostname set from client
     (FM, '            if name:\n                self._metadata[bucket_id]["name"] = name\n', '            if name:\n                self._metadata[bucket_id]["name"] = name\n            self._metadata[bucket_id]["created"] = ""\n', True),   # memory: update clobbers a field not supplied
+    (FM, '            buckets[bucket_id] = self.get_metadata(bucket_id)', '            buckets[bucket_id] = self._metadata[bucket_id]', True),   # memory: the listing hands out the stored metadata entries
+    (FM, '        for bucket_id in self.db:\n            buckets[bucket_id] = self.get_metadata(bucket_id)', '        for bucket_id in self.db:\n            if len(self.db[bucket_id]) > 0:\n                buckets[bucket_id] = self.get_metadata(bucket_id)', True),   # memory: empty buckets are not listed
 ]
